@@ -6,7 +6,8 @@
 (* Update, closeXDSChannels) for one authority with servers 1..N and the   *)
 (* resources of one non-SotW type.  chan / sup / sgot: channel exists,     *)
 (* stream up, stream delivered a response; active; rstat (none / req /     *)
-(* cached); rsub: the servers a resource is subscribed on.                 *)
+(* cached / nacked: only "req" counts as uncached for the client); rsub:   *)
+(* the servers a resource is subscribed on.                                *)
 (* As in the code, a connectivity failure of ANY server with a channel     *)
 (* triggers the search for the next server without a channel (not only a   *)
 (* failure of the active one): the observer accepts that with Literal = 0  *)
@@ -28,7 +29,7 @@ FInit == /\ f = FObsInit(N, {1, 2}, KeySet, FALSE) /\ chan = [j \in S |-> FALSE]
          /\ sgot = [j \in S |-> FALSE] /\ active = 0 /\ rstat = [n \in Names |-> "none"] /\ rsub = [n \in Names |-> {}]
 
 RECURSIVE ItemSeq(_, _)
-ItemSeq(m, X) == IF X = {} THEN <<>> ELSE LET x == CHOOSE x \in X : TRUE IN <<[n |-> x, v |-> m[x], ok |-> TRUE]>> \o ItemSeq(m, X \ {x})
+ItemSeq(m, X) == IF X = {} THEN <<>> ELSE LET x == CHOOSE x \in X : TRUE IN <<[n |-> x, v |-> m[x], ok |-> m[x] # "bad"]>> \o ItemSeq(m, X \ {x})
 RECURSIVE CloseAll(_, _)
 CloseAll(x, js) == IF js = {} THEN x ELSE LET j == CHOOSE j \in js : TRUE IN CloseAll(FObsClose(x, j), js \ {j})
 
@@ -74,7 +75,7 @@ Fail(j) ==
                  ELSE /\ UNCHANGED <<chan, active, rsub>> /\ f' = FObsQuiet(f1)
   /\ UNCHANGED rstat
 
-\* server j delivers a response; m[n] = "v" or "absent"
+\* server j delivers a response; m[n] = "v" (valid), "bad" (rejected) or "absent"
 Update(j, m) ==
   /\ chan[j] /\ sup[j] /\ active # 0
   /\ LET ns == {n \in Names : m[n] # "absent"}
@@ -83,7 +84,7 @@ Update(j, m) ==
      IN IF j > active THEN /\ f' = FObsQuiet(f1) /\ sgot' = [sgot EXCEPT ![j] = TRUE] /\ UNCHANGED <<chan, sup, active, rstat, rsub>>
         ELSE /\ active' = j
              /\ sgot' = [x \in S |-> IF x = j THEN TRUE ELSE IF x > j /\ Mutant # 2 THEN FALSE ELSE sgot[x]]
-             /\ rstat' = [n \in Names |-> IF rstat[n] # "none" /\ m[n] # "absent" THEN "cached" ELSE rstat[n]]
+             /\ rstat' = [n \in Names |-> IF rstat[n] # "none" /\ m[n] # "absent" THEN (IF m[n] = "bad" THEN "nacked" ELSE "cached") ELSE rstat[n]]
              /\ IF Mutant = 2 THEN /\ UNCHANGED <<chan, sup, rsub>> /\ f' = FObsQuiet(f1)
                 ELSE /\ chan' = [x \in S |-> chan[x] /\ x <= j] /\ sup' = [x \in S |-> sup[x] /\ x <= j]
                      /\ rsub' = [n \in Names |-> {x \in rsub[n] : x <= j}]
